@@ -15,7 +15,7 @@ from detsim.core import HistoryWorld, Violation, StopRun
 from detsim import lib as lib_mod
 from refmodel import boc as refboc, hashmap, tlb
 from refmodel.rcell import RCell, RCellError, pruned_of, merkle_proof_of, merkle_update_of, library_ref_of
-from .common import (call, to01, tvm_bits, lib_cell_from_rcell, rcell_from_lib, struct_diff, Cell, Builder, Slice, bitarray, Address, ExternalAddress, addr_tuple)
+from .common import (call, call_shallow, to01, tvm_bits, lib_cell_from_rcell, rcell_from_lib, struct_diff, Cell, Builder, Slice, bitarray, Address, ExternalAddress, addr_tuple)
 from .build import _rbits
 
 from pytoniq_core.boc.hashmap import HashMap
@@ -196,6 +196,9 @@ class PoolWorld(HistoryWorld):
         shape = cfg.get('shape')
         if cfg.get('deep'):
             q.append({'op': 'arena_chain', 'n': cfg['deep'], 'caller': -1})
+            if cfg['deep'] == 1023 and self.prop in ('C01', 'C08'):
+                # one level more is not a cell any longer: attempted (through the builder or the constructor), then life goes on
+                q.append({'op': ['build', 'direct'][rng.randrange(2)], 'bits': _rbits(rng, rng.choice([0, 5, 8])), 'refs': [['A', 0]], 'plain': False, 'caller': 0})
             return
         if shape:
             q.append({'op': 'arena_shape', 'shape': shape, 'seed': rng.getrandbits(32), 'caller': -1})
@@ -445,6 +448,15 @@ class PoolWorld(HistoryWorld):
         try:
             twin = RCell(op['bits'], [e['twin'] for e in refs])
         except RCellError:
+            # not a cell (one level too deep): the library is asked all the same - a REFUSED construction is an event in the history
+            # like any other (whether it refuses is C07's subject); whatever it does, the cells made afterwards are ordinary ones
+            def mk_refused():
+                b = Builder().store_bits(op['bits'])
+                for e in refs:
+                    b.store_ref(e['lib'])
+                return b.end_cell()
+            call_shallow(mk_refused)
+            ctx.fault('construction-of-a-non-cell-attempted')
             return 'model-refuses'
         def mk():
             b = Builder().store_bits(op['bits'])
@@ -557,6 +569,8 @@ class PoolWorld(HistoryWorld):
         try:
             twin = RCell(op['bits'], [e['twin'] for e in refs])
         except RCellError:
+            call_shallow(Cell, tvm_bits(op['bits']), [e['lib'] for e in refs], -1)
+            ctx.fault('construction-of-a-non-cell-attempted')
             return 'model-refuses'
         arg_bits = bitarray(op['bits']) if op.get('plain') else tvm_bits(op['bits'])
         arg_refs = [e['lib'] for e in refs]
